@@ -5,7 +5,7 @@ usage: selftest/run_mutants.py [--tier quick|thorough] [--only name-substring ..
 import os, subprocess, sys, time, json
 ROOT = os.path.dirname(os.path.dirname(os.path.abspath(__file__)))
 sys.path.insert(0, os.path.join(ROOT, "selftest"))
-REPO = "/repo"
+REPO = os.environ.get("VERIF_REPO", "/repo")
 
 def sh(cmd, cwd=None, env=None, timeout=3600):
     p = subprocess.run(cmd, cwd=cwd, env=env, shell=isinstance(cmd, str), stdout=subprocess.PIPE, stderr=subprocess.STDOUT, timeout=timeout)
@@ -64,7 +64,7 @@ def main():
         res = {}
         for pid in props:
             t0 = time.time()
-            rc, out = sh(["./check", pid, tier], cwd=ROOT)
+            rc, out = sh(["./check", pid, tier], cwd=ROOT, env=dict(os.environ, VERIF_REPO=REPO))
             res[pid] = (rc, round(time.time() - t0, 1))
         clean()
         sh("rm -rf %s/.work/* %s/replays" % (ROOT, ROOT))
